@@ -133,6 +133,20 @@ TRY_FORMS = {
 TRY_NAMES = sorted(TRY_FORMS)
 
 
+# what the evaluation did before the growth starts: exceptions caught across frames, unwinding through
+# built-ins, abrupt exits -- whatever they leave behind must not blind the limit afterwards
+PRE_FORMS = {
+    "none": "",
+    "caught_throw_fn": "try { (function(){ throw 1; })(); } catch (e0) {}\n",
+    "caught_throw_deep": "try { (function a0(n){ if (n) { a0(n - 1); } else { throw new Error('x'); } })(5); } catch (e0) {}\n",
+    "caught_throw_cb": "try { [1, 2].forEach(function(){ throw 1; }); } catch (e0) {}\n",
+    "caught_typeerror_fn": "try { (function(){ null.x; })(); } catch (e0) {}\n",
+    "caught_in_loop": "for (var q0 = 0; q0 < 20; q0++) { try { (function(){ throw q0; })(); } catch (e0) {} }\n",
+    "finally_return_fn": "(function(){ for (var k0 in {a: 1}) { try { return 1; } finally { } } })();\n",
+    "caught_eval_throw": "try { eval('throw 1'); } catch (e0) {}\n",
+}
+PRE_NAMES = sorted(PRE_FORMS)
+
 NATIVE_START_SITES = {
     "start_in_forEach": "[1].forEach(function(x){ %s });",
     "start_in_sort": "[2,1].sort(function(a,b){ %s return 0; });",
@@ -175,7 +189,8 @@ def render(cell):
         # the recursion starts inside script code that a built-in is running (the second
         # interpreter loop): declarations stay global, only the start statement moves
         body = "%s\n%s" % (decl, NATIVE_START_SITES[site] % start)
-    return "var d=0, A1=[1], A2=[1,2];\n%s\n\"done\";" % body
+    pre = PRE_FORMS[cell.get("pre", "none")]
+    return "var d=0, A1=[1], A2=[1,2];\n%s%s\n\"done\";" % (pre, body)
 
 
 def n_cases(tier):
@@ -198,6 +213,7 @@ def gen_case(seed, i, tier="quick"):
     cell = {"stratum": stratum, "shape": shape, "pend": pend, "try": tr,
             "site": rng.choice(("top", "top", "top", "eval", "eval2", "newfn", "function") + tuple(sorted(NATIVE_START_SITES)))}
     cell["probe"] = rng.choice(("none", "none", "none", "regexp", "json_parse", "json_stringify", "regex_match"))
+    cell["pre"] = rng.choice(PRE_NAMES) if rng.random() < 0.35 else "none"
     if shape in ("closure", "arrow", "method", "getter", "setter", "valueOf", "newfn") and cell["site"] == "newfn":
         cell["site"] = "eval"     # these shapes declare with var/object literals that need program scope
     if stratum == "scale" and cell["site"] in NATIVE_START_SITES and cell.get("try") == "outer_try_loop":
@@ -325,6 +341,8 @@ def features(case, res=None):
         f.append("site:" + cell["site"])
     if cell.get("probe", "none") != "none":
         f.append("probe:" + cell["probe"])
+    if cell.get("pre", "none") != "none":
+        f.append("pre:" + cell["pre"])
     if case.get("T_work"):
         f.append("fault:deadline")
     if case.get("deep"):
@@ -362,6 +380,8 @@ def shrink_candidates(case):
         yield mk(site="top")
     if cell.get("probe", "none") != "none":
         yield mk(probe="none")
+    if cell.get("pre", "none") != "none":
+        yield mk(pre="none")
     if cell["shape"] != "self" and cell.get("site", "top") in ("top", "eval", "eval2"):
         yield mk(shape="self")
     if cell["stratum"] == "scale":
